@@ -45,6 +45,7 @@ use std::{
 pub const ALLOC_FACTOR: u64 = 96;
 pub const ALLOC_CONST: u64 = 16384;
 pub const KAD_PEER_COST: u64 = 6144;
+pub const EMBED_BOUND: u64 = 1 << 28;
 fn alloc_bound_kad(k: u64, len: usize) -> u64 {
     alloc_bound(len) + KAD_PEER_COST * (2 * k + 1)
 }
@@ -213,9 +214,9 @@ pub fn case_as_proto(c: &[u64]) -> Vec<u64> {
 // ---------------------------------------------------------------- in-memory carrier
 
 #[derive(Clone, Default)]
-struct Carrier {
-    input: Arc<Mutex<(Vec<u8>, usize)>>,
-    written: Arc<Mutex<Vec<u8>>>,
+pub struct Carrier {
+    pub input: Arc<Mutex<(Vec<u8>, usize)>>,
+    pub written: Arc<Mutex<Vec<u8>>>,
 }
 impl tokio::io::AsyncRead for Carrier {
     fn poll_read(self: Pin<&mut Self>, _cx: &mut Context<'_>, buf: &mut tokio::io::ReadBuf<'_>) -> Poll<std::io::Result<()>> {
@@ -516,6 +517,84 @@ fn dump_prefix(v: u64, c: u64, t: u64, l: u8) -> Vec<u64> {
     o
 }
 
+
+pub const YAMUX_BOUND: u64 = 4 << 20;
+fn opaque(peak: u64, bound: u64) -> u64 {
+    if peak <= bound {
+        bound
+    } else {
+        peak
+    }
+}
+
+fn yamux_credit_overflows(l: &[u8]) -> bool {
+    u32::from_be_bytes([l[0], l[1], l[2], l[3]]).checked_add(262144).is_none()
+}
+fn yamux_first_frame_trigger(b: &[u8]) -> bool {
+    b.len() >= 12 && b[0] == 0 && b[1] == 1 && b[3] & 1 == 1 && b[3] & 8 == 0 && b[7] & 1 == 1 && yamux_credit_overflows(&b[8..12])
+}
+/// transcription of coq/C19/Model.v yamux_syn_credit_overflow
+fn yamux_syn_credit_overflow(mut b: &[u8]) -> bool {
+    while b.len() >= 12 {
+        let len = u32::from_be_bytes([b[8], b[9], b[10], b[11]]) as usize;
+        if b[1] == 1 && b[3] & 1 == 1 && yamux_credit_overflows(&b[8..12]) {
+            return true;
+        }
+        let rest = &b[12..];
+        if b[1] == 0 {
+            if rest.len() < len {
+                return false;
+            }
+            b = &rest[len..];
+        } else {
+            b = rest;
+        }
+    }
+    false
+}
+
+/// futures-io carrier for the yamux connection: the bytes, then end of stream; writes are dropped
+struct FCarrier {
+    data: Vec<u8>,
+    pos: usize,
+}
+impl futures::io::AsyncRead for FCarrier {
+    fn poll_read(mut self: Pin<&mut Self>, _cx: &mut Context<'_>, buf: &mut [u8]) -> Poll<std::io::Result<usize>> {
+        let n = buf.len().min(self.data.len() - self.pos);
+        let p = self.pos;
+        buf[..n].copy_from_slice(&self.data[p..p + n]);
+        self.pos += n;
+        Poll::Ready(Ok(n))
+    }
+}
+impl futures::io::AsyncWrite for FCarrier {
+    fn poll_write(self: Pin<&mut Self>, _cx: &mut Context<'_>, buf: &[u8]) -> Poll<std::io::Result<usize>> {
+        Poll::Ready(Ok(buf.len()))
+    }
+    fn poll_flush(self: Pin<&mut Self>, _cx: &mut Context<'_>) -> Poll<std::io::Result<()>> {
+        Poll::Ready(Ok(()))
+    }
+    fn poll_close(self: Pin<&mut Self>, _cx: &mut Context<'_>) -> Poll<std::io::Result<()>> {
+        Poll::Ready(Ok(()))
+    }
+}
+/// the yamux connection litep2p runs over every TCP/WebSocket connection (the `yamux` crate behind
+/// `litep2p::yamux`), server side, fed the bytes: number of inbound streams it opened
+fn yamux_feed(b: &[u8]) -> usize {
+    use litep2p::yamux::{Config, Connection, Mode};
+    let mut conn = Connection::new(FCarrier { data: b.to_vec(), pos: 0 }, Config::default(), Mode::Server);
+    let waker = futures::task::noop_waker();
+    let mut cx = Context::from_waker(&waker);
+    let mut streams = Vec::new();
+    for _ in 0..4096 {
+        match conn.poll_next_inbound(&mut cx) {
+            Poll::Ready(Some(Ok(s))) => streams.push(s),
+            Poll::Ready(Some(Err(_))) | Poll::Ready(None) | Poll::Pending => break,
+        }
+    }
+    streams.len()
+}
+
 fn hdr(peak: u64, bound: u64, cap: u64, body: Vec<u64>) -> Vec<u64> {
     // C19_SHOW_PEAK=1 (debugging only): print the measured peak even when it is within the bound
     let show = std::env::var_os("C19_SHOW_PEAK").is_some();
@@ -692,15 +771,13 @@ fn run_inner(p: &[u64]) -> Option<(Vec<u64>, Vec<u64>)> {
                 }
             }
             orc.push(&mut case);
-            // decode as the protocol does (payload.to_vec().as_slice()) plus the address rule
-            let (r, peak) = measure(|| {
-                SchemaIdentify::decode(b.to_vec().as_slice()).ok().map(|info| {
-                    let listen: Vec<Vec<u8>> = info.listen_addrs.iter().filter_map(|a| addr_kept(a, &peer)).collect();
-                    let observed = info.observed_addr.as_ref().and_then(|a| addr_kept(a, &local));
-                    let protocols: std::collections::HashSet<String> = std::collections::HashSet::from_iter(info.protocols.clone());
-                    (info, listen, observed, protocols)
-                })
-            });
+            // the REAL identify event loop: connection announced, the substream it opens carries
+            // one varint frame with the payload, the public event (if any) is observed
+            if local != super::tasks::local_peer() {
+                return None;
+            }
+            let wire = super::tasks::identify_frame(&b);
+            let (r, peak) = super::tasks::identify(peer, &wire)?;
             let mut body = Vec::new();
             match &raw {
                 Some(m) => {
@@ -710,15 +787,13 @@ fn run_inner(p: &[u64]) -> Option<(Vec<u64>, Vec<u64>)> {
                 None => body.push(0),
             }
             match r {
-                Some((info, listen, observed, protocols)) => {
+                Some(info) => {
                     body.push(1);
                     eo(&mut body, info.protocol_version.as_ref().map(|s| s.as_bytes()));
-                    eo(&mut body, info.agent_version.as_ref().map(|s| s.as_bytes()));
-                    let mut ps: Vec<Vec<u8>> = protocols.into_iter().map(|s| s.into_bytes()).collect();
-                    ps.sort();
-                    ell(&mut body, &ps);
-                    eo(&mut body, observed.as_deref());
-                    ell(&mut body, &listen);
+                    eo(&mut body, info.user_agent.as_ref().map(|s| s.as_bytes()));
+                    ell(&mut body, &info.protocols);
+                    eo(&mut body, info.observed.as_deref());
+                    ell(&mut body, &info.listen);
                 }
                 None => body.push(0),
             }
@@ -765,37 +840,11 @@ fn run_inner(p: &[u64]) -> Option<(Vec<u64>, Vec<u64>)> {
                 }
             }
             orc.push(&mut case);
+            // the REAL bitswap event loop: the remote's inbound substream carries one varint frame
             let peer = some_peer();
-            let (r, peak) = measure(|| {
-                bsv::SchemaMessage::decode(BytesMut::from(&b[..])).ok().map(|m| {
-                    // on_message_received, transcribed around the real helpers
-                    let mut req = Vec::new();
-                    if let Some(w) = &m.wantlist {
-                        for e in &w.entries {
-                            if let Ok(cid) = Cid::read_bytes(e.block.as_slice()) {
-                                if e.want_type == 0 || e.want_type == 1 {
-                                    req.push((cid.to_bytes(), e.want_type as u64));
-                                }
-                            }
-                        }
-                    }
-                    let mut blocks = Vec::new();
-                    for blk in m.payload.iter() {
-                        if let Some(c) = bsv::verif_block_to_response(&peer, blk.prefix.clone(), blk.data.clone()) {
-                            blocks.push(c);
-                        }
-                    }
-                    let mut pres = Vec::new();
-                    for p in &m.block_presences {
-                        if let Ok(cid) = Cid::read_bytes(&p.cid[..]) {
-                            if p.r#type == 0 || p.r#type == 1 {
-                                pres.push((cid.to_bytes(), p.r#type as u64));
-                            }
-                        }
-                    }
-                    (req, blocks, pres)
-                })
-            });
+            let wire = super::tasks::bitswap_frame(&b);
+            let (seen, peak) = super::tasks::bitswap(peer, &wire)?;
+            let r = raw.as_ref().map(|_| (seen.requests, seen.blocks, seen.presences));
             let mut body = Vec::new();
             match (&raw, r) {
                 (Some(m), Some((req, blocks, pres))) => {
@@ -859,7 +908,23 @@ fn run_inner(p: &[u64]) -> Option<(Vec<u64>, Vec<u64>)> {
             let mut orc = Orc::default();
             orc.add(1, &b, || r.clone());
             orc.push(&mut case);
-            Some((case, hdr(peak, alloc_bound(b.len()), 0, vec![r[0]])))
+            Some((case, hdr(peak, alloc_bound(b.len()), 0, r)))
+        }
+        17 => {
+            let b = cur.bytes()?;
+            if !cur.done() {
+                return None;
+            }
+            let (r, peak) = measure(|| Cid::read_bytes(&b[..]).ok().map(|c| c.to_bytes()));
+            let body = match r {
+                Some(c) => {
+                    let mut o = vec![1];
+                    el(&mut o, &c);
+                    o
+                }
+                None => vec![0],
+            };
+            Some((case, hdr(peak, alloc_bound(b.len()), 0, body)))
         }
         12 => {
             let h = cur.n()? != 0;
@@ -927,6 +992,40 @@ fn run_inner(p: &[u64]) -> Option<(Vec<u64>, Vec<u64>)> {
                 codes
             });
             Some((case, hdr(peak, alloc_bound(total), 0, codes)))
+        }
+        14 | 15 | 16 => {
+            // another property's whole scenario (its own per-call catch_unwind and trace format)
+            let raw = &p[1..];
+            let (t, peak) = measure(|| match kind {
+                14 => super::ext::x02::run(raw),
+                15 => super::ext::x04::run(raw),
+                _ => super::ext::x03::run(raw),
+            });
+            let mut out = vec![1, if peak <= EMBED_BOUND { EMBED_BOUND } else { peak }, 0];
+            out.extend(t);
+            Some((case, out))
+        }
+        // kinds 18 (TLS certificate), 19 (WebRTC codec) and 9918 belong to the feature worker
+        // (src/c19/xworker.rs); the driver never sends them here
+        21 => {
+            let b = cur.bytes()?;
+            if !cur.done() {
+                return None;
+            }
+            // inputs containing the trigger of known finding class 1 (yamux SYN credit overflow) are
+            // run for real but only the first-frame case is predicted (see coq/C19/Glue.v)
+            if yamux_first_frame_trigger(&b) {
+                let r = catch_unwind(AssertUnwindSafe(|| yamux_feed(&b)));
+                measure_off();
+                return Some((case, vec![777, r.is_err() as u64]));
+            }
+            if yamux_syn_credit_overflow(&b) {
+                let _ = catch_unwind(AssertUnwindSafe(|| yamux_feed(&b)));
+                measure_off();
+                return Some((case, vec![777, 2]));
+            }
+            let (_, peak) = measure(|| yamux_feed(&b));
+            Some((case, vec![1, opaque(peak, YAMUX_BOUND), 0]))
         }
         20 => run_rt(&mut cur).map(|t| (case, t)),
         _ => None,
